@@ -190,6 +190,16 @@ class _ShimSut(object):
 def run_C14(case):
     from .engine import Ctx, Result, Violation, Foreign, run_sequential
 
+    if case.get("query_after_close"):
+        # the caller keeps using the object after close(): queries may fail, they may not write
+        def final_closed(ctx):
+            if ctx.backend == "mem":
+                return
+            ctx.sut.close()
+            ctx.probe("queries_on_a_closed_index")
+            sweep_C14(ctx)
+
+        return run_sequential(case, sweep_C14, prop="C14", final=final_closed)
     if case.get("reopen_with_fewer_rules"):
         # a process restarted with a rules dict that lacks rules flagged in the trie:
         # a reachable state; queries may fail, they may not write
